@@ -64,6 +64,17 @@ def run(repo, rep, tier):
         return root.name not in names.ASSOC_FUNCS
     names.run_name_rules(repo, rep, r1, r2, scope)
 
+    r5 = rep.rule('C12.R5', 'error messages of the class resolver/provider '
+                  'code can be built (well-formed format strings)')
+    from ..guards import run_format_rule
+    run_format_rule(repo, rep, r5, lambda f: f.file in (
+        'pywbem_mock/_resolvermixin.py', BASE) or (
+        f.file == MAIN and f.name in (
+            'EnumerateClasses', 'EnumerateClassNames', 'GetClass',
+            'CreateClass', 'ModifyClass', 'DeleteClass',
+            '_get_subclass_names', '_get_superclass_names',
+            '_get_subclass_list_for_enums', '_validate_dependencies_exist')))
+
     mp = repo.cls(MAIN, 'MainProvider')
     bp = repo.cls(BASE, 'BaseProvider')
 
